@@ -737,7 +737,10 @@ pub fn check_convergence(r: &Runner, out: &mut Outcome, step_no: usize, grew: &B
         // dependency - is reloaded whenever that entry is reloaded
         if grew.get(&key).copied().unwrap_or(0) == 0 && r.values_before.contains_key(&key) {
             if let Some(ds) = deps_before.get(&(tag, key.clone())) {
-                for d in ds {
+                // only edges that still exist after the step: an owned load of the same key during the step replaces
+                // the recorded set (in the crate and in the shadow graph alike)
+                let still = deps_now.get(&(tag, key.clone()));
+                for d in ds.iter().filter(|d| still.map_or(false, |n| n.contains(*d))) {
                     if let Dep::Asset(dk, di) = d {
                         let dkey = (*dk, di.clone());
                         if dkey == key || grew.get(&dkey).copied().unwrap_or(0) == 0 {
